@@ -449,7 +449,7 @@ fn ribbon_idle<const C: usize>(fs: u32, n: u64) {
     }
     // as many short touches (never a press)
     r.poll(1.0);
-    for i in 0..n.min(200_000) {
+    for i in 0..(2 * n).min(400_000) {
         r.poll(if i % 2 == 0 { 0.35 } else { 1.0 });
     }
     let _ = (r.value(), r.finger_is_pressing(), r.finger_just_pressed(), r.finger_just_released());
@@ -571,14 +571,15 @@ fn c17_more(ctx: &Ctx, rep: &mut Report, thorough: bool) {
         let r = std::panic::catch_unwind(|| {
             for pri in 0..3 {
                 for rt in 0..2 {
-                    for pat in 0..4096u32 {
+                    for pat in 0..(4096u32 * 16) {
+                        let (pri_at, rt_at) = ((pat >> 12) & 3, (pat >> 14) & 3);
                         let mut m = MonoMidiReceiver::new(0);
                         for step in 0..4 {
                             let code = (pat >> (3 * step)) & 7;
-                            if step == 1 {
+                            if step == pri_at {
                                 m.set_note_priority(match pri { 0 => NotePriority::Last, 1 => NotePriority::High, _ => NotePriority::Low });
                             }
-                            if step == 2 {
+                            if step == rt_at {
                                 m.set_retrigger_mode(if rt == 0 { RetriggerMode::AllowRetrigger } else { RetriggerMode::NoRetrigger });
                             }
                             let (st, d1, d2) = match code {
@@ -600,9 +601,9 @@ fn c17_more(ctx: &Ctx, rep: &mut Report, thorough: bool) {
                 }
             }
         });
-        rep.count("ordinary_argument_cases", 3 * 2 * 4096);
+        rep.count("ordinary_argument_cases", 3 * 2 * 4096 * 16);
         if let Err(e) = r {
-            rep.violation(viol("panic-midi", format!("note messages with the priority / retrigger setters in between: {}", panic_msg(&e)), "midi", json!({"channel": 0}), vec!["# 4 note messages from a menu of 8 with set_note_priority before the second and set_retrigger_mode before the third".into()]));
+            rep.violation(viol("panic-midi", format!("note messages with the priority / retrigger setters in between: {}", panic_msg(&e)), "midi", json!({"channel": 0}), vec!["# 4 note messages from a menu of 8 with set_note_priority and set_retrigger_mode before any of them (all 16 placements)".into()]));
         }
     }
     // ribbon: sample rates that are not whole numbers of hertz (buffer sized by the helper from the integer part)
@@ -647,6 +648,21 @@ fn c17_more(ctx: &Ctx, rep: &mut Report, thorough: bool) {
                 }
                 q.forbid(&[Note::from(0)]);
                 q.convert(5.04);
+            })
+        });
+        sc.spawn(move || {
+            long_rep(fr, format!("quantizer: {} scale edits (allow / forbid in turn) with a conversion now and then", n), "quantizer", json!({}), vec!["# forbid:5 / allow:5 in turn".into()], move || {
+                let mut q = Quantizer::new();
+                for i in 0..n {
+                    if i % 2 == 0 {
+                        q.forbid(&[Note::from(5)]);
+                    } else {
+                        q.allow(&[Note::from(5)]);
+                    }
+                    if i % 4099 == 0 {
+                        q.convert(2.4);
+                    }
+                }
             })
         });
         sc.spawn(move || {
@@ -701,7 +717,7 @@ fn c17_more(ctx: &Ctx, rep: &mut Report, thorough: bool) {
             });
         }
     });
-    let k = if thorough { 7 } else { 4 };
+    let k = if thorough { 8 } else { 5 };
     rep.count("long_run_scripts", k);
     rep.evaluations += n * k;
     rep.transitions += n * k;
